@@ -213,18 +213,21 @@ class ACEProcess(interface.Processor):
           ACE.
         """
         assert self._p.stdin is not None, 'cannot send inputs to ACE'
+        # ACE reads one input per line, so line breaks inside an input
+        # (e.g., an indented MRS) are sent as blanks
+        line = re.sub(r'[\r\n]+', ' ', datum.rstrip()) + '\n'
         if self._p.poll() is not None:
             logger.info('ACE process has exited; attempting to reopen')
             self._open()
         try:
-            self._p.stdin.write((datum.rstrip() + '\n'))
+            self._p.stdin.write(line)
             self._p.stdin.flush()
         except (IOError, OSError):  # ValueError if file was closed manually
             logger.info(
                 'Attempted to write to a closed process; attempting to reopen'
             )
             self._open()
-            self._p.stdin.write((datum.rstrip() + '\n'))
+            self._p.stdin.write(line)
             self._p.stdin.flush()
 
     def receive(self) -> interface.Response:
